@@ -196,6 +196,12 @@ HopProp(g, st) ==
 \* C10 restates C07 and C08 for every later hop: those failures are reported under both properties
 AlsoC10(g, st) == st.hops > 0 /\ g # "G19_noWaitForRedirectBody"
                   /\ (g \in {"G08_dial", "G08_targetForm", "G08_noFragmentNoCreds", "G08_host", "G12_connectNamesOrigin"} \/ HopProp(g, st) = "C07")
+\* the Host field is one of the header fields C07 speaks of: on the request for the caller's own URL (first hop) a
+\* wrong Host is reported under C07 as well as under C08, which states the rule
+AlsoC07(g, st) == st.hops = 0 /\ g = "G08_host"
+\* the peer a tunnelled request reaches is the one the CONNECT request names: naming another host or port (or an IPv6
+\* literal without its brackets) fails "sent to the URL's own host and effective port" (C08) as well as C12
+AlsoC08(g, st) == g = "G12_connectNamesOrigin"
 HopViolations(cfg, st, h) == {g \in HopGuards : ~HopGuard(g, cfg, st, h)}
 
 AfterHop(cfg, st) == [After(cfg, st) EXCEPT !.hops = @ + 1]
